@@ -242,6 +242,35 @@ def run_one(spec, request, num_workers, chunksize, schedule, fail=(), check_inva
     return {"outcome": outcome[0], "choices": choices}
 
 
+def raising_start_case(spec, request, num_workers, chunksize):
+    """C05: a start callback raises after another callback's start already ran: the latter must still get its finish."""
+    import dask.local as L
+
+    dsk, denote, runs, recv = make_graph(spec)
+    log = []
+
+    class Boom(Exception):
+        pass
+
+    def boom(d):
+        raise Boom()
+
+    for order in (0, 1):
+        log.clear()
+        good = (lambda d: log.append("start"), None, None, None, lambda d, s, failed: log.append(("finish", failed)))
+        bad = (boom, None, None, None, lambda d, s, failed: log.append(("finish-bad", failed)))
+        cbs = [good, bad] if order == 0 else [bad, good]
+        try:
+            L.get_async(L.synchronous_executor.submit, num_workers, dsk, request, callbacks=cbs, chunksize=chunksize)
+            raise Violation("C05-start-raise", "a raising start callback did not propagate")
+        except Boom:
+            pass
+        if order == 0 and log != ["start", ("finish", True)]:
+            raise Violation("C05-finish-after-failed-start", f"callback whose start had run saw {log}, expected ['start', ('finish', True)]")
+        if order == 1 and log != []:
+            raise Violation("C05-finish-without-start", f"callback that was never started saw {log}")
+
+
 def all_schedules(spec, request, num_workers, chunksize, fail=(), limit=400, **kw):
     """DFS over completion choices: explore every interleaving (up to `limit` runs)."""
     done = 0
@@ -327,6 +356,8 @@ def sweep(tier, seed=0, with_failures=True, time_budget=None):
                         if sample is None and n == 3:
                             sample = {"graph": spec, "request": req, "num_workers": nw, "chunksize": cs, "failing": fl}
                         try:
+                            if not fl and (nw, cs) == configs[0]:
+                                raising_start_case(spec, req, nw, cs)
                             runs += all_schedules(spec, req, nw, cs, fl, limit=60 if tier == "quick" else 400)
                         except Violation as v:
                             fails.append(rtc.Failure("get_async", {"graph": spec, "request": req, "num_workers": nw, "chunksize": cs, "failing": fl}, "ensures", v.clause, v.detail))
